@@ -3,9 +3,9 @@ import os, re, subprocess
 from . import common as C
 
 MANIFEST = dict(
-   technique="Lean 4 proof (case analysis over the fast paths of ParsePrimitiveStrict against ParsePrimitive, reusing the C10 check-engine theorems; ParseComplexStrict against ParseComplex for arbitrary validators, extractors and transforms; statement-by-statement transcriptions of the four type-local (Parse, StrictParse) pairs - BigInt, File, Function, Struct - with their own agreement theorems; induction over histories of constructor calls, copy-on-write derivations, CloneFrom of both flavours and entry-point calls on a heap of schemas with per-schema hidden state; evaluation of the whole entry-point table, including the resolution of promoted methods through embedded schemas) + go/ast translator over types/*.go regenerating the table of how every entry point of every schema type is implemented and the source text of every statement around its engine call + differential correspondence on real string schemas, string histories and integer histories + in-harness comparison of all six entry points on every schema type of the table and on every zero-argument constructor of the library (value, pointer and Coerced variants), on well-typed and ill-typed inputs, cold and after histories",
-   text="c09_strict_eq_parse proves for the primitive engine path that StrictParse and Parse yield the same verdict, value and issue positions for every check list, every modifier configuration and every input of the strict static type (nil pointers included). c09_complex_strict_eq_parse proves the same for the complex engine path as it is after 692881a, for every validator, every behaviour of the extractors, every transform and every input, well-typed or not (the legacy function is kept as legacyStrictParse with four witnesses and legacy_not_agreeing). c09_table_as_expected, c09_table_wrappers and c09_table_covered are decided over the whole table regenerated from types/*.go on every run (53 schema types x 6 entry points: which engine function each entry point hands its input to, with which validator, with how many statements in front and behind): on every type ParseAny is 'return z.Parse(input, ctx...)' and each Must variant is the must-wrapper of its base entry point (c09_parseAny_eq_parse_all, c09_must_returns_or_panics say what those shapes do on every input), and every (Parse, StrictParse) pair is the bare engine pair the agreement theorems cover, is inherited from an embedded schema that is, or is one of four transcribed type-local implementations (c09_table_transcribed pins both rows and the text of every statement around the engine call; c09_bigint_strict_eq_parse, c09_file_strict_eq_parse, c09_function_same_verdict_value and c09_struct_partial are their agreement theorems, the last two with witnesses for the excluded region), or ZodStringBool, whose two entry points have different domains by design (c09_table_run_only); c09_table_bases follows promotion through embedded schemas and proves that on every type ParseAny, MustParse and MustParseAny bottom out in the implementation the type's Parse bottoms out in and MustStrictParse in that of StrictParse, so an override of one entry point that leaves the promoted wrappers behind is a failing obligation; a re-routed entry point changes these proof obligations and the named rows aim the run, which then puts every constructor of the named type under every modifier history of length <= 2 on its boundary inputs. c09_history proves that in every history (constructors, any copy-on-write method, CloneFrom of both flavours in both directions, the six entry points called in any order any number of times) every entry point answers what Parse answers on the schema's current configuration, for any implementation whose per-schema state is Faithful; the pinned code is Faithful, a memoised flag copied by CloneFrom is not (memoising_stale_witness). The model is tied to /repo on String()/StringPtr() schemas with random check chains and modifier suffixes (all six entry points predicted), on histories over families of string schemas (copyAll CloneFrom) and of Int()/IntPtr() schemas (keepChecks CloneFrom) run through the Lean history machine, and on every schema type of the table the six entry points are compared with each other in the harness on well-typed inputs (strict pair) and on inputs of any kind (ParseAny, MustParse, MustParseAny; the recovered panic value and a returned error are rendered with their dynamic type, so the panic value itself must be the error Parse returns; results carry their Go shape), on cold schemas and after histories whose derivation steps are found by reflection; a never-parsed twin separates history-induced disagreements from those of the configuration. Frame lines check by reflection that no field of core.ZodTypeInternals changes across a parse and that a derived schema's internals do not depend on earlier parses. A directed run starts from every zero-argument constructor of types/*.go (184; the registry is compared with the source on every run), in the variants plain / refined / +overwrite under modifier histories, on the family's samples as R, as themselves, behind pointers, as typed nil pointers, on nil, and on 36 foreign values including the standard library's value types (netip.Addr, net.IP, time.Time, *big.Int, json.Number, []byte). Structure fingerprints of the 41 transcribed Go functions aim the run when one of them is edited.",
-   note="Trusted: Lean kernel; axioms propext/Classical.choice/Quot.sound at most; harness + comparer; the go/ast classification of method bodies (engine / fwd / must / inherit / own). The type-specific parts of the complex path (validator, pointer pre-pass of the checks, checks on a default or on nil, transform) are parameters of the model, so its theorem holds for every instantiation but says nothing about what a validator does; for the one type whose pair is the bare complex engine pair (ZodSlice) the result conversion of Parse is transcribed (sliceConv) and proved equal to ParseComplexStrict's. The Faithful hypotheses of c09_history are tied to the code by the frame observation. The four transcribed type-local pairs are parametric in the validator and, for ZodStruct, in the text test its error rewrite is keyed on; the transcription is pinned by statement text and by the fingerprints of the helpers (parseNilInput, convertFileResult, convertToFileConstraintType, convertResult, convertToStructConstraintType, the extractors). ZodStringBool is judged by the statement directly in the run (known finding). Deviations are listed as known findings by (type, Parse outcome class, StrictParse outcome class): stringbool (by design), structnested (error rewrite keyed on text: pending/C09-struct-error-rewrite.diff), function (pointer shape; pinned by the library's own test). Pointer identity of results is C15's business and not compared here.",
+   technique="Lean 4 proof (case analysis over the fast paths of ParsePrimitiveStrict against ParsePrimitive, reusing the C10 check-engine theorems; ParseComplexStrict against ParseComplex for arbitrary validators, extractors and transforms; statement-by-statement transcriptions of the four type-local (Parse, StrictParse) pairs - BigInt, File, Function, Struct - with their own agreement theorems; the six entry points assembled from a (Parse, StrictParse) pair by the fwd / must wrapper shapes (Cpx.six); induction over histories of constructor calls, copy-on-write derivations, CloneFrom of both flavours and entry-point calls on a heap of schemas with per-schema hidden state; evaluation of the whole entry-point table, including the resolution of promoted methods through embedded schemas) + go/ast translator over types/*.go regenerating the table of how every entry point of every schema type is implemented and the source text of every statement around its engine call + differential correspondence: real String()/StringPtr() schemas, string and integer histories (primitive path: Prim.parse / Prim.strictParse through Cpx.six), and real schemas of the thirteen complex-path types (Slice, Array, Map, Object, Record, Set, Tuple, Union, Xor, Intersection, File, Function, Struct) run through Cpx.parse / Cpx.strictParse / TypeLocal.file..., func..., struct... / Cpx.must / Cpx.fwd with the configuration read off the real schema's internals and the validator's answers read off the unmodified schema + in-harness comparison of all six entry points on every schema type of the table and on every zero-argument constructor of the library (value, pointer and Coerced variants), on well-typed and ill-typed inputs, cold and after histories",
+   text="c09_strict_eq_parse proves for the primitive engine path that StrictParse and Parse yield the same verdict, value and issue positions for every check list, every modifier configuration and every input of the strict static type (nil pointers included). c09_complex_strict_eq_parse proves the same for the complex engine path as it is after 692881a, for every validator, every behaviour of the extractors, every transform and every input, well-typed or not (the legacy function is kept as legacyStrictParse with four witnesses and legacy_not_agreeing). The clause about ParseAny and the Must variants is carried by the go/ast shape table: c09_table_wrappers and c09_table_bases are decided over the whole table regenerated from types/*.go on every run (53 schema types x 6 entry points) and say that on every type ParseAny is 'return z.Parse(input, ctx...)' and each Must variant is 'r, err := z.X(...); if err != nil { panic(err) }; return r' of its base entry point, promotion through embedded schemas followed; Cpx.six assembles the six entry points from a (Parse, StrictParse) pair by exactly these two shapes, and c09_six_agree / c09_six_any_follow_parse / c09_must_returns_or_panics say what the shapes do (where the pair agrees on an input all six answer with Parse's result, a Must variant by returning it or panicking with that very error; ParseAny / MustParse / MustParseAny follow Parse on every input whatever StrictParse does) - no theorem states 'ParseAny = Parse' about the model itself, where it would be reflexivity. c09_table_as_expected and c09_table_covered: every (Parse, StrictParse) pair is the bare engine pair the agreement theorems cover, is inherited from an embedded schema that is, answers StrictParse with 'return z.Parse(input, ctx...)', or is one of four transcribed type-local implementations (c09_table_transcribed pins both rows and the text of every statement around the engine call; c09_bigint_strict_eq_parse, c09_file_strict_eq_parse, c09_function_same_verdict_value and c09_struct_partial are their agreement theorems, the last two with witnesses for the excluded region), or ZodStringBool, whose two entry points have different domains by design (c09_table_run_only). c09_fam_strict_eq_parse / c09_fam_six_agree / c09_fam_struct_six_partial restate the agreement for TypeLocal.famParse / famStrict / famSix, the definitions the driver executes on the cpx lines (family = the row of the regenerated table). c09_history proves that in every history (constructors, any copy-on-write method, CloneFrom of both flavours in both directions, the six entry points called in any order any number of times) every entry point answers what Parse answers on the schema's current configuration, for any implementation whose per-schema state is Faithful; the pinned code is Faithful, a memoised flag copied by CloneFrom is not (memoising_stale_witness). Decided by the run: (1) the primitive model on String()/StringPtr() schemas with random check chains and modifier suffixes and on string / integer histories (all six observations predicted through Cpx.six over Prim.parse / Prim.strictParse); (2) the complex model on real schemas of the thirteen complex-path types: every cpx line carries the configuration read by reflection from the schema's Internals(), whether R is a pointer, what the input is to the engine (untyped nil, typed nil, a value, a pointer, refused) and what the type's validator answers on the input and on the prefault value (= the unmodified schema's answer), and the driver predicts P, S, A, MP, MS, MA through TypeLocal.famSix, compared with the real six entry points on a projection without message texts (results with their Go shape, errors as code@path lists, non-optional told apart) - under every modifier history of length <= 2 over the eight modifiers, on each sample as strict input, behind a pointer, as typed nil pointer, nil of R, untyped nil and foreign values; (3) on every schema type of the table the six entry points are compared with each other in the harness with full messages, on cold schemas and after histories; frame lines check by reflection that no field of core.ZodTypeInternals changes across a parse. A directed run starts from every zero-argument constructor of types/*.go (184; the registry is compared with the source on every run); its distribution (constructors, history lengths, variants, input classes) is printed into the evidence. Structure fingerprints of the 50 transcribed Go functions aim the run when one of them is edited.",
+   note="Trusted: Lean kernel; axioms propext/Classical.choice/Quot.sound at most; harness + comparer; the go/ast classification of method bodies (engine / fwd / must / inherit / own). The type-specific parts of the complex path are parameters of the model: the validator's answer comes from the run (the unmodified schema's Parse on the value - so for an unmodified schema on a plain value the prediction of P is that observation itself, and what the model adds there is S, A and the Must variants; under modifiers, on nil-like inputs, pointers, defaults and prefaults all six are genuine predictions); the harness' Overwrite is the identity, so the pointer pass of an overwrite (CEnv.firstPass) and the checks on a default / on nil are instantiated as 'nothing changes' - validatePointer's firstPass arm is therefore not exercised by the run; an engine-level Transform is not reachable through the public API. The result switch of the nine 'return z.Parse' types is modelled as Cpx.adapt and compared by the run only (fingerprinted, not pinned by text). ZodStruct's createStructTypeError is modelled under the projection (a root-level custom issue, or invalid_type for untyped nil). The Faithful hypotheses of c09_history are tied to the code by the frame observation. The four transcribed type-local pairs are pinned by statement text and by the fingerprints of their helpers. ZodStringBool is judged by the statement directly in the run (known finding). Deviations are listed as known findings by (type, Parse outcome class, StrictParse outcome class): stringbool (by design), function (pointer shape; pinned by the library's own test; predicted by funcParse / funcStrict). Pointer identity of results is C15's business and not compared here.",
    design="DESIGN.md §5 C09")
 
 MODULES = ["Gozod.Proofs.C09", "Gozod.Proofs.C09Complex", "Gozod.Proofs.C09Table", "Gozod.Proofs.C09TypeLocal"]
@@ -14,7 +14,8 @@ THEOREMS = ["Gozod.C09." + t for t in [
     "c09_complex_strict_eq_parse", "sliceConv_ok", "c09_slice_strict_eq_parse", "adapt_preserves", "c09_complex_same_verdict_value",
     "adapt_shape", "adapt_idem", "handleNilComplex_handled", "legacy_fast_path_witness", "legacy_nil_path_witness",
     "legacy_validation_only_witness", "legacy_fallback_witness", "legacy_validatePointer_bypass", "legacy_not_agreeing",
-    "c09_parseAny_eq_parse_all", "c09_must_returns_or_panics", "must_returned_iff", "must_panicked_iff", "must_congr",
+    "c09_must_returns_or_panics", "must_returned_iff", "must_panicked_iff", "must_congr",
+    "c09_six_agree", "c09_six_any_follow_parse", "c09_slice_six",
     # the entry-point table regenerated from types/*.go (Proofs/C09Table.lean)
     "c09_table_as_expected", "c09_table_wrappers", "c09_table_covered", "c09_table_via_parse", "c09_table_type_local", "c09_table_nonempty",
     "c09_table_bases", "c09_table_mixed", "c09_table_transcribed", "c09_table_run_only",
@@ -23,7 +24,9 @@ THEOREMS = ["Gozod.C09." + t for t in [
     "c09_file_strict_eq_parse", "c09_file_is_engine_pair", "c09_function_same_verdict_value", "c09_function_strict_eq_parse",
     "c09_function_pointer_shape_witness", "c09_function_full_false", "parse_structInternals", "structParse_eq", "c09_struct_partial",
     "c09_struct_rewrite_witness", "c09_struct_full_false",
-    "checked_ptr_irrelevant", "checked_no_checks", "c09_strict_eq_parse", "c09_parseAny_eq_parse",
+    # the families the driver runs on the cpx lines (TypeLocal.famSix)
+    "c09_fam_strict_eq_parse", "c09_fam_six_agree", "c09_fam_struct_six_partial",
+    "checked_ptr_irrelevant", "checked_no_checks", "c09_strict_eq_parse",
     "strictParseWith_sound", "strictFast_checks_empty", "run_ok_of_read_only", "pinned_faithful", "runEP_eq_parse", "step_spec",
     "c09_history", "c09_history_pinned", "c09_history_entrypoints_agree", "c09_parses_do_not_matter",
     "memoising_stale_witness", "memoising_not_faithful"]]
@@ -67,7 +70,7 @@ def key(op, impl, M, S):
     return "%s:%s:Parse=%s:%s=%s%s" % (ty, "entrypoints" if S and S.startswith("spec-rejects") else "model", ocls(p), which, ocls(other), extra)
 
 def describe(op):
-    return "harness/cmd/c09: 'str' = String()/StringPtr() + checks (message m<pos>) + modifier suffix; 'gen <type> <modifiers applied by reflection>'; input after '|'"
+    return "harness/cmd/c09: 'str' = String()/StringPtr() + checks (message m<pos>) + modifier suffix; 'gen <type> <modifiers applied by reflection>'; 'cpx <family> <GoType> <configuration, engine view of the input, validator answers>' (the schema is named after '#'); input after '|'"
 
 GEN_EP = os.path.join(C.LEAN, "Gozod", "Gen", "EntryPoints.lean")
 
@@ -118,8 +121,12 @@ def _run(res):
     for k, lean_def, kind, detail in changed:
         if kind == "missing":
             C.tie_broken(res, "fingerprint " + k, "the Go function %s mirrors is gone or renamed" % lean_def)
-        if k.startswith("types/slice.go") or "Complex" in k or "validatePointer" in k or "validateValue" in k:
+        if k.startswith("types/slice.go") or "Complex" in k or "validatePointer" in k or "validateValue" in k or "processModifiersCore" in k:
             aimed = sorted(set(aimed) | {"ZodSlice"})
+        for f, t in (("array", "ZodArray"), ("map", "ZodMap"), ("object", "ZodObject"), ("record", "ZodRecord"), ("set", "ZodSet"), ("tuple", "ZodTuple"),
+                     ("union", "ZodUnion"), ("xor", "ZodXor"), ("intersection", "ZodIntersection")):
+            if k.startswith("types/%s.go" % f):
+                aimed = sorted(set(aimed) | {t})
         for f, t in (("types/bigint.go", "ZodBigInt"), ("types/file.go", "ZodFile"), ("types/function.go", "ZodFunction"), ("types/struct.go", "ZodStruct")):
             if k.startswith(f):
                 aimed = sorted(set(aimed) | {t})
@@ -154,5 +161,21 @@ def _run(res):
         "(C) histories: two relatives A, B of one type; 1-4 warm-up calls of random entry points (half of them strict) on random heap cells with value / nil inputs; one or two derivation routes "
         "(the cell itself, a method discovered by reflection on a warm cell - modifiers, checks, accessors, And/Or wrappers -, CloneFrom between two cells in either direction, a fresh bare schema receiving a warm one); "
         "then the six entry points on the target in two random orders, and Parse / StrictParse on never-parsed twins when the warm ones disagree; one frame line per history; (D) the same histories over Int()/IntPtr() with Min/Max/Overwrite/Refine checks shipped in unary so that the string environment of the Lean machine predicts them with the keepChecks CloneFrom. distinct = distinct op lines.")
+    res.coverage["rule"] += (" (E) cpx: the thirteen complex-path types (gentries families incl. the generic constructors) in the variants own-checks / plain+identity-Overwrite under ALL 73 modifier histories of length <= 2, "
+        "on <= 3 samples as strict input / as themselves, behind a pointer, the typed nil pointer, nil of R, untyped nil and 3 foreign values; every such case (and every case of (B)/(B2) on a complex-path type) is also a cpx line predicted by the Lean model.")
+    # the distribution of the directed runs, in one place
+    def _sub(prefix):
+        return {k[len(prefix):]: v for k, v in sorted(dist.items()) if k.startswith(prefix)}
+    res.coverage["directed_run"] = {
+        "lines": sum(_sub("directed:").values()), "by_family": _sub("directed:"), "constructors_exercised": len(_sub("ctor:")),
+        "lines_per_constructor_min_max": [min(_sub("ctor:").values() or [0]), max(_sub("ctor:").values() or [0])],
+        "by_history_length": _sub("directed-history-len:"), "by_variant": _sub("directed-variant:"), "by_input_class": _sub("directed-input:"),
+        "aimed_types": _sub("directed-aimed:")}
+    res.coverage["cpx_run"] = {
+        "lines_predicted_by_Cpx_model": sum(_sub("cpx:").values()), "by_family": _sub("cpx:"), "by_mechanism": _sub("cpx-fam:"),
+        "by_engine_input_kind": _sub("cpx-in="), "directed_lines": sum(_sub("cpxdir:").values()), "directed_by_history_length": _sub("cpxdir-history-len:"),
+        "directed_by_variant": _sub("cpxdir-variant:"), "directed_by_input_class": _sub("cpxdir-input:")}
+    if not sum(_sub("cpx:").values()):
+        C.tie_broken(res, "coverage C09/cpx", "no cpx line was produced: the complex-path model is not compared with the code")
     res.assumptions += ["ASCII strings", "result values compared after dereferencing (pointer identity is C15)"]
     return res.finish()
